@@ -26,7 +26,7 @@ Clause(r) ==
   IF r.ev # "ok" THEN r.ev
   ELSE IF MODE = "wkt" THEN
     (IF \E k \in DOMAIN r.outs : ~r.outs[k].ok THEN "wkt|encode-error"
-     ELSE IF \E k \in DOMAIN r.outs : Shape(r.outs[k].toks) # Shape(Render(r.case.g)) THEN "wkt|structure-changed"
+     ELSE IF \E k \in DOMAIN r.outs : Shape(r.outs[k].toks) \notin {Shape(Render(r.case.g)), Shape(RenderG(r.case.g, TRUE))} THEN "wkt|structure-changed"
      ELSE "ok")
   ELSE
     (IF \E k \in DOMAIN r.outs : r.outs[k].err # "" THEN "geojson|encode-error"
